@@ -41,13 +41,16 @@ DefKindOfMsg(mt) == CASE mt \in {"unaryReq", "clientReq"} -> "u"
 \* one header / trailer entry: list l ("q" request, "h" response header, "t" trailer), name id,
 \* mixed-case spelling, -bin name, value tokens in order (a token may repeat)
 H(l, id, mixed, bin, vals) == [l |-> l, id |-> id, mixed |-> mixed, bin |-> bin, vals |-> vals]
-HdrShapeNames == {"none", "plain", "rep", "mixed", "bin", "multi"}
+HdrShapeNames == {"none", "plain", "rep", "mixed", "bin", "multi", "shared"}
 HdrShape(l, name) ==
   CASE name = "plain" -> <<H(l, 1, FALSE, FALSE, <<1>>)>>
     [] name = "rep"   -> <<H(l, 1, FALSE, FALSE, <<1, 2, 1>>)>>
     [] name = "mixed" -> <<H(l, 1, TRUE, FALSE, <<1>>)>>
     [] name = "bin"   -> <<H(l, 1, FALSE, TRUE, <<1>>)>>
     [] name = "multi" -> <<H(l, 1, TRUE, FALSE, <<1, 2>>), H(l, 2, TRUE, TRUE, <<1, 2>>), H(l, 3, FALSE, FALSE, <<1>>)>>   \* incl. a mixed-case -bin name
+    \* "shared": the first entry carries the NAME of response header 1 whatever list it is in (in the
+    \* trailer list it is spelled in mixed case): one name in the headers and in the trailers of a response
+    [] name = "shared" -> <<H("h", 1, l = "t", FALSE, <<2, 1>>), H(l, 3, FALSE, FALSE, <<1>>)>>
     [] OTHER          -> <<>>
 
 Tok(n)        == [k |-> "tok", t |-> n]                          \* an opaque error detail
@@ -192,16 +195,25 @@ ClientView(T) == LET s == Serve(T) IN Res(s.hdrs, s.trls, s.msgs, s.err)
 \* Attribution of metadata when the call ended before any message: a single-response client API
 \* may expose only "error metadata" (reported as trailers, headers empty - or the reverse); on the
 \* wire a trailers-only response carries both blocks together, so each list may also hold the other.
+\* one bag for headers and trailers: a name that is in both lists has the header's values followed by
+\* the trailer's (what a receiver that cannot tell the two apart sees, and what the runner expects then)
+HKey(h) == <<h.l, h.id, h.bin>>
+MergeH(hs, ts) ==
+  LET hit(i) == {j \in DOMAIN ts : HKey(ts[j]) = HKey(hs[i])}
+      m1 == [i \in DOMAIN hs |-> IF hit(i) = {} THEN hs[i]
+                                  ELSE [hs[i] EXCEPT !.vals = @ \o ts[CHOOSE j \in hit(i) : TRUE].vals]]
+  IN m1 \o SelectSeq(ts, LAMBDA t : \A i \in DOMAIN hs : HKey(hs[i]) # HKey(t))
+
 Attributions(v, st) ==
-  LET both == v.hdrs \o v.trls IN
+  LET both == MergeH(v.hdrs, v.trls) IN
   IF v.payloads # <<>> THEN {v}
   ELSE IF Kind(st) = "u"
          THEN {v, [v EXCEPT !.hdrs = <<>>, !.trls = both], [v EXCEPT !.hdrs = both, !.trls = <<>>],
                   [v EXCEPT !.hdrs = both, !.trls = both]}
-         ELSE {v, [v EXCEPT !.hdrs = both, !.trls = both]}
+         ELSE {v}
 
 (* ------------------------------ the assertion ------------------------------ *)
-Key(h) == <<h.l, h.id>>                       \* a name, compared case-insensitively
+Key(h) == HKey(h)                             \* a name, compared case-insensitively
 HdrSubset(exp, act) == \A i \in DOMAIN exp : \E j \in DOMAIN act : Key(act[j]) = Key(exp[i]) /\ act[j].vals = exp[i].vals
 
 RIConforms(e, a, first) == /\ first => HdrSubset(e.hdrs, a.hdrs)
@@ -221,7 +233,7 @@ PayloadsConform(e, a) == /\ Len(e) = Len(a)
 
 MetaConforms(e, a, st) ==
   LET strict == HdrSubset(e.hdrs, a.hdrs) /\ HdrSubset(e.trls, a.trls)
-      merged == e.hdrs \o e.trls
+      merged == MergeH(e.hdrs, e.trls)
   IN IF e.payloads = <<>> /\ e.err # NoneV /\ Kind(st) = "u"
        THEN strict \/ HdrSubset(merged, a.hdrs) \/ HdrSubset(merged, a.trls)
        ELSE strict
